@@ -316,3 +316,334 @@ Proof.
     change (mu (sett c t (finish (gett c t) rest RDoneWg)) < mu c).
     apply mu_update_t; [exact Hlt|]. rewrite cost_finish, (cost_idle _ _ _ Hph Hc). simpl. lia.
 Qed.
+
+Lemma run_strict_run c s c' : run_strict c s = Some c' -> run c s = c'.
+Proof.
+  revert c; induction s as [|t s IH]; intros c; simpl.
+  - congruence.
+  - destruct (step c t); [apply IH|discriminate].
+Qed.
+
+Lemma run_preserves_simple c s : simple c -> simple (run c s).
+Proof. apply run_ind_inv. intros; eapply step_preserves_simple; eauto. Qed.
+
+(* a schedule that only names enabled threads is no longer than the measure *)
+Theorem run_strict_bound c s c' :
+  simple c -> run_strict c s = Some c' -> length s + mu c' <= mu c.
+Proof.
+  revert c; induction s as [|t s IH]; intros c HS; simpl.
+  - intros E; inversion E; lia.
+  - destruct (step c t) as [c1|] eqn:E; [|discriminate]. intros H.
+    pose proof (step_decreases_mu _ _ _ HS E).
+    specialize (IH c1 (step_preserves_simple _ _ _ HS E) H). lia.
+Qed.
+
+(* ------------------------------------------------------------------------- *)
+(* well-formed producer/consumer programs                                    *)
+(* ------------------------------------------------------------------------- *)
+
+Definition producer (vs : list Z) : thread := client (map (CAdd 0) vs ++ [CDone]).
+Definition closer : thread := client [CWait; CClose 0].
+Definition drainer : thread := client [CRemoveAll 0].
+
+(* producers, one closer behind the wait group, nc >= 1 consumers, nd RemoveAll callers *)
+Definition pc_config (cap : nat) (vss : list (list Z)) (nc nd : nat) : config :=
+  {| queues := [mkq cap]; wg := length vss;
+     threads := map producer vss ++ [closer] ++ repeat (consumer 0) nc ++ repeat drainer nd |}.
+
+Definition is_done (k : call) : bool := match k with CDone => true | _ => false end.
+Definition is_wait (k : call) : bool := match k with CWait => true | _ => false end.
+Definition is_close (k : call) : bool := match k with CClose _ => true | _ => false end.
+Definition has_done (th : thread) : bool := existsb is_done (tcalls th).
+Definition has_wait (th : thread) : bool := existsb is_wait (tcalls th).
+Definition has_close (th : thread) : bool := existsb is_close (tcalls th).
+Definition is_cons (th : thread) : bool := match tloop th with LConsumer _ => true | _ => false end.
+
+(* the states a thread of such a program can be in *)
+Inductive shape (th : thread) : Prop :=
+| ShP1 ws : tloop th = LNone -> tph th = PIdle ->
+            tcalls th = map (CAdd 0) ws ++ [CDone] -> shape th
+| ShP2 w ws : tloop th = LNone -> tph th = PSend 0 ->
+              tcalls th = CAdd 0 w :: map (CAdd 0) ws ++ [CDone] -> shape th
+| ShK0 : tloop th = LNone -> tph th = PIdle -> tcalls th = [CWait; CClose 0] -> shape th
+| ShK1 : tloop th = LNone -> tph th = PIdle -> tcalls th = [CClose 0] -> shape th
+| ShC1 : tloop th = LConsumer 0 -> tph th = PIdle -> tcalls th = [CRemoveHead 0] -> shape th
+| ShC2 : tloop th = LConsumer 0 -> tph th = PPop 0 -> tcalls th = [CRemoveHead 0] -> shape th
+| ShD1 : tloop th = LNone -> tph th = PIdle -> tcalls th = [CRemoveAll 0] -> shape th
+| ShD2 : tloop th = LNone -> tph th = PDiscard 0 -> tcalls th = [CRemoveAll 0] -> shape th
+| ShZ : tloop th = LNone -> tph th = PIdle -> tcalls th = [] -> shape th.
+
+Record W (c : config) : Prop := {
+  W_inv : Inv2 c;
+  W_len : length (queues c) = 1;
+  W_cap : 1 <= qcap (getq c 0);
+  W_shape : Forall shape (threads c);
+  W_wg : wg c = cnt has_done (threads c);
+  W_close : cnt has_close (threads c) + b2n (qclosed (getq c 0)) = 1;
+  W_wait : cnt has_wait (threads c) = 0 -> wg c = 0;
+  W_cons : 1 <= cnt is_cons (threads c) \/ (qclosed (getq c 0) = true /\ qtok (getq c 0) = 0)
+}.
+
+Lemma existsb_adds f ws : (forall v, f (CAdd 0 v) = false) -> existsb f (map (CAdd 0) ws) = false.
+Proof. intros Hf. induction ws as [|w ws IH]; simpl; auto. now rewrite Hf, IH. Qed.
+
+Definition cls (th : thread) : bool * bool * bool * bool :=
+  (has_done th, has_wait th, has_close th, is_cons th).
+
+Lemma cls_P th ws : tloop th = LNone -> tcalls th = map (CAdd 0) ws ++ [CDone] ->
+  cls th = (true, false, false, false).
+Proof.
+  intros Hl Hc. unfold cls, has_done, has_wait, has_close, is_cons. rewrite Hl, Hc.
+  rewrite !existsb_app, !existsb_adds by reflexivity. reflexivity.
+Qed.
+
+Lemma cls_lit th l lp : tloop th = lp -> tcalls th = l ->
+  cls th = (existsb is_done l, existsb is_wait l, existsb is_close l,
+            match lp with LConsumer _ => true | _ => false end).
+Proof. intros Hl Hc. unfold cls, has_done, has_wait, has_close, is_cons. now rewrite Hl, Hc. Qed.
+
+Lemma cnt_upd p c t th' a b :
+  t < length (threads c) -> p (gett c t) = a -> p th' = b ->
+  cnt p (set_nth t th' (threads c)) + b2n a = cnt p (threads c) + b2n b.
+Proof. intros Hlt <- <-. now apply cnt_set_nth. Qed.
+
+Lemma cls_upd c t th' a1 a2 a3 a4 b1 b2 b3 b4 :
+  t < length (threads c) -> cls (gett c t) = (a1, a2, a3, a4) -> cls th' = (b1, b2, b3, b4) ->
+  cnt has_done (set_nth t th' (threads c)) + b2n a1 = cnt has_done (threads c) + b2n b1 /\
+  cnt has_wait (set_nth t th' (threads c)) + b2n a2 = cnt has_wait (threads c) + b2n b2 /\
+  cnt has_close (set_nth t th' (threads c)) + b2n a3 = cnt has_close (threads c) + b2n b3 /\
+  cnt is_cons (set_nth t th' (threads c)) + b2n a4 = cnt is_cons (threads c) + b2n b4.
+Proof.
+  intros Hlt Ho Hn. unfold cls in *. inversion Ho; inversion Hn.
+  repeat split; apply cnt_upd; auto.
+Qed.
+
+Lemma finish_head_cons_true th rest v : tloop th = LConsumer 0 ->
+  finish_head th rest v true =
+  {| tph := PIdle; tcalls := rest ++ [CRemoveHead 0]; tloop := LConsumer 0;
+     tres := tres th ++ [RHead v true] |}.
+Proof. intros H. unfold finish_head. rewrite H. reflexivity. Qed.
+
+Lemma finish_head_cons_false th rest v : tloop th = LConsumer 0 ->
+  finish_head th rest v false =
+  {| tph := PIdle; tcalls := rest ++ []; tloop := LNone; tres := tres th ++ [RHead v false] |}.
+Proof. intros H. unfold finish_head. rewrite H. reflexivity. Qed.
+
+Lemma shape_gett c t : Forall shape (threads c) -> t < length (threads c) -> shape (gett c t).
+Proof. intros H Hlt. unfold gett. rewrite Forall_forall in H. apply H. now apply nth_In. Qed.
+
+Lemma W_intro c c' t th' (a1 a2 a3 a4 b1 b2 b3 b4 : bool) :
+  t < length (threads c) -> threads c' = set_nth t th' (threads c) ->
+  Inv2 c' -> length (queues c') = 1 -> 1 <= qcap (getq c' 0) ->
+  Forall shape (threads c) -> shape th' ->
+  cls (gett c t) = (a1, a2, a3, a4) -> cls th' = (b1, b2, b3, b4) ->
+  (forall d w k cs,
+     d + b2n a1 = cnt has_done (threads c) + b2n b1 ->
+     w + b2n a2 = cnt has_wait (threads c) + b2n b2 ->
+     k + b2n a3 = cnt has_close (threads c) + b2n b3 ->
+     cs + b2n a4 = cnt is_cons (threads c) + b2n b4 ->
+     wg c' = d /\ k + b2n (qclosed (getq c' 0)) = 1 /\ (w = 0 -> wg c' = 0) /\
+     (1 <= cs \/ (qclosed (getq c' 0) = true /\ qtok (getq c' 0) = 0))) ->
+  W c'.
+Proof.
+  intros Hlt Hth HI Hlen Hcap Hsh Hsh' Ho Hn Har.
+  destruct (cls_upd c t th' _ _ _ _ _ _ _ _ Hlt Ho Hn) as (E1 & E2 & E3 & E4).
+  rewrite <- Hth in E1, E2, E3, E4.
+  destruct (Har _ _ _ _ E1 E2 E3 E4) as (A & B & C & D).
+  constructor; auto. rewrite Hth. now apply Forall_set_nth.
+Qed.
+
+Ltac w_intro c t :=
+  match goal with
+  | HI' : Inv2 _, Hql : length (queues _) = length (queues c),
+    Hcap : qcap (getq _ 0) = qcap (getq c 0) |- _ =>
+    eapply (W_intro c _ t);
+    [ eassumption | reflexivity | exact HI' | congruence | rewrite Hcap; assumption
+    | eassumption | | | | ]
+  end.
+
+Ltac w_arith3 c HWt :=
+  intros Hz; first [ lia | (assert (Hz' : cnt has_wait (threads c) = 0) by lia;
+                             specialize (HWt Hz'); simpl; lia) ].
+Ltac w_arith4 Hcons :=
+  first [ (right; split; [assumption | lia])
+        | (destruct Hcons as [Hc1|[Hc2 Hc3]];
+           [ left; lia
+           | first [ lia | discriminate | congruence | (right; split; [assumption | lia]) ] ]) ].
+Ltac w_arith c HWt Hcons :=
+  split; [ lia | split; [ lia | split; [ w_arith3 c HWt | w_arith4 Hcons ] ] ].
+
+Lemma step_preserves_W c t c' : W c -> step c t = Some c' -> W c'.
+Proof.
+  intros HW H.
+  assert (HI' : Inv2 c') by (eapply step_preserves_inv2; eauto; apply HW).
+  pose proof (step_tid _ _ _ H) as Hlt.
+  pose proof (step_queues_length _ _ _ H) as Hql.
+  pose proof (step_cap _ _ _ 0 H) as Hcap.
+  destruct HW as [HI Hlen Hcap1 Hsh HWg Hk HWt Hcons].
+  pose proof (shape_gett c t Hsh Hlt) as Hs.
+  assert (Hq0 : 0 < length (queues c)) by lia.
+  assert (Hle : qtok (getq c 0) <= qcap (getq c 0)) by (apply tok_le_cap; apply HI).
+  apply step_stepR in H. revert HI' Hql Hcap.
+  destruct Hs as [ws Hl Hp Hcs | w ws Hl Hp Hcs | Hl Hp Hcs | Hl Hp Hcs | Hl Hp Hcs
+                 | Hl Hp Hcs | Hl Hp Hcs | Hl Hp Hcs | Hl Hp Hcs].
+  - (* producer between calls *)
+    destruct ws as [|w ws]; simpl in Hcs; stepR_cases H; try congruence;
+      rewrite Hcs in Hc; inversion Hc; subst; intros HI' Hql Hcap.
+    + (* Done *)
+      w_intro c t.
+      * apply ShZ; auto.
+      * apply (cls_P _ [] Hl Hcs).
+      * apply (cls_lit _ [] LNone); auto.
+      * intros d w k cs E1 E2 E3 E4. simpl in E1, E2, E3, E4.
+        change (getq (sett _ t _) 0) with (getq c 0). simpl wg.
+        w_arith c HWt Hcons.
+    + (* append *)
+      w_intro c t.
+      * apply (ShP2 _ v ws); auto.
+      * apply (cls_P _ (v :: ws) Hl Hcs).
+      * apply (cls_P _ (v :: ws) Hl Hcs).
+      * intros d w0 k cs E1 E2 E3 E4. simpl in E1, E2, E3, E4.
+        rewrite getq_sett, getq_setq_eq by lia. simpl.
+        w_arith c HWt Hcons.
+  - (* producer before its send *)
+    stepR_cases H; try congruence; rewrite Hcs in Hc; inversion Hc; subst;
+      rewrite Hp in Hph; inversion Hph; subst; intros HI' Hql Hcap.
+    + (* send *)
+      w_intro c t.
+      * apply (ShP1 _ ws); auto.
+      * apply (cls_P _ (v :: ws) Hl Hcs).
+      * apply (cls_P (finish (gett c t) (map (CAdd 0) ws ++ [CDone]) RAdded) ws); auto.
+      * intros d w0 k cs E1 E2 E3 E4. simpl in E1, E2, E3, E4.
+        rewrite getq_sett, getq_setq_eq by lia. simpl. rewrite Hcl in *. simpl in Hk.
+        w_arith c HWt Hcons.
+    + (* send on a closed queue: impossible, the closer waits for this producer *)
+      exfalso. rewrite Hcl in Hk. simpl in Hk.
+      assert (Hz : cnt has_wait (threads c) = 0).
+      { assert (Hkz : cnt has_close (threads c) = 0) by lia.
+        destruct (Nat.eq_dec (cnt has_wait (threads c)) 0) as [|Hne]; auto.
+        destruct (cnt_pos_ex has_wait (threads c) ltac:(lia)) as (t' & Hlt' & Ht').
+        pose proof (shape_gett c t' Hsh Hlt') as Hs'. unfold gett in Hs'.
+        exfalso. apply (cnt_zero_all has_close (threads c) t' Hkz); auto.
+        unfold has_wait in Ht'. unfold has_close.
+        destruct Hs' as [ws' ? ? E | w' ws' ? ? E | ? ? E | ? ? E | ? ? E | ? ? E | ? ? E | ? ? E | ? ? E];
+          rewrite E in *; try reflexivity; try (simpl in Ht'; discriminate).
+        - rewrite existsb_app, existsb_adds in Ht' by reflexivity. discriminate.
+        - simpl in Ht'. rewrite existsb_app, existsb_adds in Ht' by reflexivity. discriminate. }
+      specialize (HWt Hz).
+      assert (Hpos : 0 < cnt has_done (threads c)).
+      { apply (cnt_ex_pos has_done (threads c) t Hlt).
+        fold (gett c t). pose proof (cls_P _ (v :: ws) Hl Hcs) as Hcls. now inversion Hcls. }
+      lia.
+  - (* closer waiting *)
+    stepR_cases H; try congruence; rewrite Hcs in Hc; inversion Hc; subst; intros HI' Hql Hcap.
+    w_intro c t.
+    + apply ShK1; auto.
+    + apply (cls_lit _ [CWait; CClose 0] LNone); auto.
+    + apply (cls_lit _ [CClose 0] LNone); auto.
+    + intros d w k cs E1 E2 E3 E4. simpl in E1, E2, E3, E4.
+      change (getq (sett _ t _) 0) with (getq c 0). simpl wg.
+      w_arith c HWt Hcons.
+  - (* closer closing *)
+    stepR_cases H; try congruence; rewrite Hcs in Hc; inversion Hc; subst; intros HI' Hql Hcap.
+    + w_intro c t.
+      * apply ShZ; auto.
+      * apply (cls_lit _ [CClose 0] LNone); auto.
+      * apply (cls_lit _ [] LNone); auto.
+      * intros d w k cs E1 E2 E3 E4. simpl in E1, E2, E3, E4.
+        rewrite getq_sett, getq_setq_eq by lia. simpl. rewrite Hcl in *. simpl in Hk.
+        assert (Hkk : 1 <= cnt has_close (threads c)).
+        { apply (cnt_ex_pos has_close (threads c) t Hlt). fold (gett c t).
+          unfold has_close. rewrite Hcs. reflexivity. }
+        split; [lia | split; [lia | split; [|w_arith4 Hcons]]].
+        { intros _. apply HWt.
+          (* the only thread that can still wait is the closer itself, which is past it *)
+          destruct (Nat.eq_dec (cnt has_wait (threads c)) 0) as [|Hne]; auto. exfalso.
+          destruct (cnt_pos_ex has_wait (threads c) ltac:(lia)) as (t' & Hlt' & Ht').
+          destruct (Nat.eq_dec t' t) as [->|Hnet].
+          - fold (gett c t) in Ht'. unfold has_wait in Ht'. rewrite Hcs in Ht'. discriminate.
+          - (* a second thread with a pending close contradicts the count *)
+            assert (Hc2 : has_close (nth t' (threads c) dummyt) = true).
+            { pose proof (shape_gett c t' Hsh Hlt') as Hs'. unfold gett in Hs'.
+              unfold has_wait in Ht'. unfold has_close.
+              destruct Hs' as [ws' ? ? E | w' ws' ? ? E | ? ? E | ? ? E | ? ? E | ? ? E | ? ? E | ? ? E | ? ? E];
+                rewrite E in *; try reflexivity; try (simpl in Ht'; discriminate).
+              - rewrite existsb_app, existsb_adds in Ht' by reflexivity. discriminate.
+              - simpl in Ht'. rewrite existsb_app, existsb_adds in Ht' by reflexivity. discriminate. }
+            pose proof (cnt_set_nth has_close t dummyt (threads c) Hlt) as Hrm.
+            fold (gett c t) in Hrm.
+            assert (Hct : has_close (gett c t) = true) by (unfold has_close; rewrite Hcs; reflexivity).
+            rewrite Hct in Hrm. simpl in Hrm.
+            assert (Hpos : 0 < cnt has_close (set_nth t dummyt (threads c))).
+            { apply (cnt_ex_pos _ _ t'); [now rewrite set_nth_length|].
+              rewrite nth_set_nth_neq by auto. exact Hc2. }
+            lia. }
+    + (* close of a closed queue: there is only one closer *)
+      exfalso. rewrite Hcl in Hk. simpl in Hk.
+      assert (Hkk : 1 <= cnt has_close (threads c)).
+      { apply (cnt_ex_pos has_close (threads c) t Hlt). fold (gett c t).
+        unfold has_close. rewrite Hcs. reflexivity. }
+      lia.
+  - (* consumer about to receive *)
+    stepR_cases H; try congruence; rewrite Hcs in Hc; inversion Hc; subst; intros HI' Hql Hcap.
+    + (* claim *)
+      w_intro c t.
+      * apply ShC2; auto.
+      * apply (cls_lit _ [CRemoveHead 0] (LConsumer 0)); auto.
+      * apply (cls_lit _ [CRemoveHead 0] (LConsumer 0)); auto.
+      * intros d w k cs E1 E2 E3 E4. simpl in E1, E2, E3, E4.
+        rewrite getq_sett, getq_setq_eq by lia. simpl.
+        w_arith c HWt Hcons.
+    + (* closed and drained: the consumer finishes *)
+      rewrite (finish_head_cons_false _ _ _ Hl) in *.
+      w_intro c t.
+      * apply ShZ; auto.
+      * apply (cls_lit _ [CRemoveHead 0] (LConsumer 0)); auto.
+      * apply (cls_lit _ [] LNone); auto.
+      * intros d w k cs E1 E2 E3 E4. simpl in E1, E2, E3, E4.
+        change (getq (sett _ t _) 0) with (getq c 0). simpl wg.
+        w_arith c HWt Hcons.
+  - (* consumer about to pop *)
+    stepR_cases H; try congruence; rewrite Hcs in Hc; inversion Hc; subst;
+      rewrite Hp in Hph; inversion Hph; subst; intros HI' Hql Hcap.
+    + rewrite (finish_head_cons_true _ _ _ Hl) in *.
+      w_intro c t.
+      * apply ShC1; auto.
+      * apply (cls_lit _ [CRemoveHead 0] (LConsumer 0)); auto.
+      * apply (cls_lit _ [CRemoveHead 0] (LConsumer 0)); auto.
+      * intros d w k cs E1 E2 E3 E4. simpl in E1, E2, E3, E4.
+        rewrite getq_sett, getq_setq_eq by lia. simpl.
+        w_arith c HWt Hcons.
+    + (* pop on an empty list: excluded by the queue invariant *)
+      exfalso. pose proof (holds_le_vals c 0 t (proj1 HI) Hq0 Hlt) as Hle'.
+      rewrite (holds_pop 0 0 _ Hp), Hv in Hle'. simpl in Hle'. lia.
+  - (* RemoveAll between rounds *)
+    stepR_cases H; try congruence; rewrite Hcs in Hc; inversion Hc; subst; intros HI' Hql Hcap.
+    + w_intro c t.
+      * apply ShD2; auto.
+      * apply (cls_lit _ [CRemoveAll 0] LNone); auto.
+      * apply (cls_lit _ [CRemoveAll 0] LNone); auto.
+      * intros d w k cs E1 E2 E3 E4. simpl in E1, E2, E3, E4.
+        rewrite getq_sett, getq_setq_eq by lia. simpl.
+        w_arith c HWt Hcons.
+    + w_intro c t.
+      * apply ShZ; auto.
+      * apply (cls_lit _ [CRemoveAll 0] LNone); auto.
+      * apply (cls_lit _ [] LNone); auto.
+      * intros d w k cs E1 E2 E3 E4. simpl in E1, E2, E3, E4.
+        change (getq (sett _ t _) 0) with (getq c 0). simpl wg.
+        w_arith c HWt Hcons.
+  - (* RemoveAll about to discard *)
+    stepR_cases H; try congruence; rewrite Hp in Hph; inversion Hph; subst; intros HI' Hql Hcap.
+    + w_intro c t.
+      * apply ShD1; auto.
+      * apply (cls_lit _ [CRemoveAll 0] LNone); auto.
+      * apply (cls_lit _ [CRemoveAll 0] LNone); auto.
+      * intros d w k cs E1 E2 E3 E4. simpl in E1, E2, E3, E4.
+        rewrite getq_sett, getq_setq_eq by lia. simpl.
+        w_arith c HWt Hcons.
+    + exfalso. pose proof (holds_le_vals c 0 t (proj1 HI) Hq0 Hlt) as Hle'.
+      rewrite (holds_disc 0 0 _ Hp), Hv in Hle'. simpl in Hle'. lia.
+  - (* finished thread: no step *)
+    stepR_cases H; congruence.
+Qed.
